@@ -437,13 +437,17 @@ func (x *fx) loopHead(li *loopInfo, b *ssa.BasicBlock, st *State, reach Term, pr
 		}
 	}
 	// call logs are loop-carried ghost state
-	loopCalls := e.effCtx().mayLogBlocks(x.fn, li.blocks)
+	loopKeys := e.effCtx().logKeysBlocks(x.fn, li.blocks)
 	for _, gk := range sortedKeys(head.ghost) {
-		if !loopCalls {
-			break
+		if strings.HasPrefix(gk, "fret:") {
+			continue
 		}
-		if strings.HasPrefix(gk, "n:") || strings.HasPrefix(gk, "ret:") || strings.HasPrefix(gk, "arg:") || strings.HasPrefix(gk, "gs:") {
+		if logHit(loopKeys, gk) {
+			prev := head.ghost[gk]
 			head.ghost[gk] = e.declare("ghost:"+gk, e.ghostSort(gk))
+			if strings.HasPrefix(gk, "n:") {
+				e.assume(fmt.Sprintf("(>= %s %s)", head.ghost[gk], prev))
+			}
 		}
 	}
 	li.phiConst = map[*ssa.Phi]Term{}
